@@ -9,7 +9,8 @@ Operations (lists, so that cases shrink and replay as plain JSON):
                                           its outbound SA; gone: (hard only) the kernel has deleted the SA already, as Linux does
   ['expire_any', side, child_k, hard]     kernel EXPIRE for any CHILD_SA tracked at `side`
   ['expire_spi', side, spihex, hard]      kernel EXPIRE for an arbitrary SPI
-  ['rekey_ike', side, sa_k] ['del_ike', side, sa_k] ['dpd', side, sa_k]     timer triggers (deadline moved, sweep run)
+  ['rekey_ike', side, sa_k] ['del_ike', side, sa_k] ['dpd', side, sa_k]     timer triggers (deadline moved, sweep run) on an
+                                          ESTABLISHED IKE_SA; ['rekey_ike_any' | 'del_ike_any' | 'dpd_any', side, sa_k]: on any live one
   ['deliver', i] ['drop', i] ['dup', i]   act on in-flight datagram i (mod number in flight)
   ['deliver_pair', x, y, i]               deliver the i-th in-flight datagram travelling between endpoints x and y
   ['old', k]                              deliver again the k-th datagram ever sent (stale replay of authentic traffic)
@@ -234,12 +235,15 @@ class Sim:
                 data = w.expire_bytes(spi, op[3])
                 self.event('expire', ep, lambda: ep.step(xfrm=data), op=op,
                            info={'sa': None, 'child': None, 'hard': bool(op[3]), 'spi': spi})
-        elif k in ('rekey_ike', 'del_ike', 'dpd'):
+        elif k in ('rekey_ike', 'del_ike', 'dpd', 'rekey_ike_any', 'del_ike_any', 'dpd_any'):
             side = op[1]
             ep = self.eps[side]
             if not ep.up:
                 return
-            cands = self.established(side)
+            # the daemon's timers run out whatever the IKE_SA is doing: the *_any forms move the deadline of an IKE_SA that
+            # may have a request outstanding (the timer functions themselves decide whether they may act)
+            cands = self.live(side) if k.endswith('_any') else self.established(side)
+            k = k[:-4] if k.endswith('_any') else k
             if not cands:
                 self.count('noop')
                 return
